@@ -90,4 +90,47 @@ theorem conv_spec {F} (x : F) (b : Bool) (e : Err) (s : String) (hs : s ≠ "") 
 example : placement 2 3 2 2 (tabulate 2 2 fun i j => 10 * i + j) =
     [((2, 3), 0), ((2, 4), 1), ((3, 3), 10), ((3, 4), 11)] := by decide
 
+/-! ### several nodes written one after the other -/
+
+/-- a sheet as a function from coordinates to the stored content; writing the placements of all
+solved nodes one after the other (`for k, r in solution: for c, v in zip(...): c.value = v`) -/
+def writeCells {β} (sheet : Nat × Nat → Option β) (ps : List ((Nat × Nat) × Option β)) : Nat × Nat → Option β :=
+  ps.foldl (fun s pv => fun q => if q = pv.1 then pv.2 else s q) sheet
+
+/-- **cells outside the solution are untouched**, however many nodes are written -/
+theorem writeCells_untouched {β} (ps : List ((Nat × Nat) × Option β)) :
+    ∀ (sheet : Nat × Nat → Option β) (q : Nat × Nat), (∀ a ∈ ps, a.1 ≠ q) → writeCells sheet ps q = sheet q := by
+  induction ps with
+  | nil => intro sheet q _; rfl
+  | cons pv ps ih =>
+    intro sheet q h
+    have h1 : pv.1 ≠ q := h pv (by simp)
+    have := ih (fun q => if q = pv.1 then pv.2 else sheet q) q (fun a ha => h a (by simp [ha]))
+    simp only [writeCells, List.foldl_cons] at this ⊢
+    rw [this]
+    simp [Ne.symm h1]
+
+/-- **every solved cell holds its solved value**: when the nodes of a solution overlap (a cell node and
+a range node over it) and agree on the shared cells, the order of writing does not matter -/
+theorem writeCells_solved {β} (ps : List ((Nat × Nat) × Option β)) (q : Nat × Nat) (v : Option β) :
+    ∀ (sheet : Nat × Nat → Option β), (∀ a ∈ ps, a.1 = q → a.2 = v) → ((q, v) ∈ ps ∨ sheet q = v) →
+      writeCells sheet ps q = v := by
+  induction ps with
+  | nil => intro sheet _ h; simpa [writeCells] using h
+  | cons pv ps ih =>
+    intro sheet hc h
+    simp only [writeCells, List.foldl_cons]
+    apply ih (fun q => if q = pv.1 then pv.2 else sheet q) (fun a ha => hc a (by simp [ha]))
+    by_cases hp : pv.1 = q
+    · right; simp [hp, hc pv (by simp) hp]
+    · rcases h with h | h
+      · rcases List.mem_cons.mp h with h | h
+        · exact absurd (by rw [← h]) hp
+        · exact Or.inl h
+      · right; simp [Ne.symm hp, h]
+
+/-- two nodes over the same cell with the same value, and a cell nobody writes -/
+example : writeCells (fun _ => some 7) [((1, 1), some 3), ((1, 2), none), ((1, 1), some 3)] (1, 1) = some 3 ∧
+    writeCells (fun _ => some 7) [((1, 1), some 3), ((1, 2), none), ((1, 1), some 3)] (1, 2) = none ∧
+    writeCells (fun _ => some 7) [((1, 1), some 3), ((1, 2), none), ((1, 1), some 3)] (5, 5) = some 7 := by decide
 end XL.C16
